@@ -427,6 +427,7 @@ int main(int argc, char** argv) {
       if (outplan) { v.plan.expect = v.cls; write_file(outplan, plan_to_text(v.plan)); }
       else printf("DETAIL %s\n", v.detail.substr(0, 2000).c_str());
     }
+    printf("DIGEST %016" PRIx64 "\n", st.digest);
     printf("RESULT %s ", bad ? "violation" : "ok"); print_stats(stdout, st); printf("\n");
     return bad ? 1 : 0;
   }
